@@ -107,7 +107,9 @@ fn mem_server() -> khttp::Server {
 /// client side of S: writes the request (body generated on the fly), reads and discards the response; returns the
 /// number of response body bytes seen after de-framing (content-length or chunked)
 fn client_exchange(c: &mut std::net::TcpStream, path: &str, framing: &str, len: u64) -> Result<u64, String> {
-    let head = if framing == "cl" { format!("POST {path} HTTP/1.1\r\nHost: m\r\nContent-Length: {len}\r\nConnection: close\r\n\r\n") }
+    // a variant ending in "10" speaks HTTP/1.0 on the request line (the route is the name without the suffix)
+    let (path, version) = match path.strip_suffix("10") { Some(p) => (p, "1.0"), None => (path, "1.1") };
+    let head = if framing == "cl" { format!("POST {path} HTTP/{version}\r\nHost: m\r\nContent-Length: {len}\r\nConnection: close\r\n\r\n") }
                else { format!("POST {path} HTTP/1.1\r\nHost: m\r\nTransfer-Encoding: chunked\r\nConnection: close\r\n\r\n") };
     c.write_all(head.as_bytes()).map_err(|e| e.to_string())?;
     // writer and reader run in turns on one thread would deadlock on large bodies: read in a second thread
@@ -258,7 +260,7 @@ pub fn gen(ctx: &Ctx) {
     out.rule = "peak live heap bytes (counting global allocator) during one operation, for body lengths 1 KiB .. 64 MiB (thorough: .. 1 GiB), bodies generated on the fly and discarded: \
                 write_response / write_request from a reader with {declared length, declared chunked, nothing declared} x reader piece sizes {1, 700, 4096, 65536, 1 MiB}; \
                 BodyReader over {fixed, chunked, EOF-delimited} bodies x {read to the end, dropped unread, dropped after 100 bytes, fill_buf/consume}; \
-                the real Server::handle on a loopback connection, request body {declared, chunked} x handler {counts the body, ignores it, reads 100 bytes, streams an equally long response}. \
+                the real Server::handle on a loopback connection, request body {declared, chunked} x handler {counts the body, ignores it, reads 100 bytes, streams an equally long response}, also with an HTTP/1.0 request line. \
                 non-trivial = bodies above 16 KiB".into();
     let mut lens: Vec<u64> = vec![1 << 10, 8191, 8192, 8193, 1 << 16, (1 << 16) + 1, 1 << 17, 1 << 20, 1 << 24, 1 << 26];
     if ctx.thorough { lens.extend([1u64 << 28, 1 << 30]); }
@@ -282,7 +284,8 @@ pub fn gen(ctx: &Ctx) {
         }
     }
     for fr in ["cl", "chunked"] {
-        for v in ["count", "ignore", "sniff", "echo", "echocl", "echochunked"] {
+        for v in ["count", "ignore", "sniff", "echo", "echocl", "echochunked", "echo10", "count10"] {
+            if fr == "chunked" && v.ends_with("10") { continue; }
             let case = format!("S {fr} {v} {}", ls(if ctx.thorough { 1 << 28 } else { 1 << 24 }));
             let r = run(&case);
             out.emit(&case, &r, &format!("S/{fr}/{v}"), true);
